@@ -118,7 +118,7 @@ Proof.
   destruct (thread rank_item n' l) as [rr n''] eqn:E2. simpl in *.
   destruct (auto_ranked ry) eqn:Ha; [|assumption]. constructor; [assumption|].
   rewrite Forall_forall. intros x Hx. apply filter_In in Hx. destruct Hx as [Hx Hax]. specialize (Hl x Hx Hax).
-  rewrite Hau in Ha. apply Hb in Ha. lia.
+  symmetry in Hau. apply Hb in Hau. lia.
 Qed.
 
 Lemma filter_filter_implies : forall A (f g : A -> bool) l, (forall x, f x = true -> g x = true) -> filter f (filter g l) = filter f l.
